@@ -82,7 +82,13 @@ B3 == <<Ty(Q(0), <<>>, <<>>, [tag |-> "tuple", tys |-> <<Q(1), Q(2)>>], <<>>),
         Ty(Q(4), <<Sa, Sa>>, <<>>, [tag |-> "composite", fields |-> <<>>], <<>>)>>
 B4 == <<Ty(Q(70), <<S64>>, <<>>, [tag |-> "sequence", ty |-> Q(16384)], <<>>)>>       \* multi-byte compacts
 B5 == [i \in 1..40 |-> Ty(Q(i - 1), <<>>, <<>>, [tag |-> "primitive", prim |-> Prims[(i % 15) + 1]], <<>>)]   \* many entries
-Bases == <<B1, B2, B3, B4, B5>>
+\* strings that are special to SOMEONE's validation: a bare raw prefix, the empty string, a raw identifier, a leading digit,
+\* a keyword, non-ASCII text - legal in a decoded registry, in every string position
+Sr == <<114, 35>>  Srt == <<114, 35, 116, 121, 112, 101>>  S9 == <<57, 120>>  Skw == <<115, 101, 108, 102>>
+B6 == <<Ty(Q(0), <<Sr, S0, Srt, S9, Skw, Se>>, <<Prm(Sr, <<Q(1)>>), Prm(S0, <<>>)>>,
+           [tag |-> "composite", fields |-> <<Fld(<<Sr>>, Q(1), <<Sr>>, <<Sr, S0>>), Fld(<<S0>>, Q(1), <<S9>>, <<>>)>>], <<Sr>>),
+        Ty(Q(1), <<S0>>, <<>>, [tag |-> "variant", variants |-> <<Var(Sr, <<>>, 0, <<Sr>>), Var(S0, <<Fld(<<Skw>>, Q(0), <<>>, <<>>)>>, 1, <<>>)>>], <<>>)>>
+Bases == <<B1, B2, B3, B4, B5, B6>>
 
 \* positions (1-based) of the bytes that start a compact length prefix or an option/enum tag: every
 \* byte is a candidate for SetByte anyway; CorruptLength rewrites a prefix with a hostile length
